@@ -41,7 +41,23 @@ CLAIMED["C19"] = (SCHED_TECH,
     "C19_reports (every State ever emitted satisfies Pending = Ready + Waiting + executing, 0 <= executing <= Concurrency, IdleWorkers = Concurrency - "
     "executing, Concurrency = limit) and C19_stop (no report after the loop finished) for every run of the gated model; C19_refuted_ungated keeps the repaired "
     "defect as a witness. Tie: every State emitted by the real scheduler (flush down to 1ns) must equal the model's counters at that point of the replay.",
-    SCHED_NOTE + " Partial: Waiting >= 0, Pending <= submitted and Waiting <= submitted-with-dependencies are checked on every observed report by the direct oracle but not yet proved of the model.", "DESIGN.md §7 C19")
+    SCHED_NOTE + " C19_bounds adds Waiting >= 0, Pending <= submitted, Waiting <= submitted-with-dependencies for every report in every history.", "DESIGN.md §7 C19")
+CLAIMED["C01"] = (SCHED_TECH,
+    "C01_order_once: in every history of every run (any DAG incl. duplicate dependencies and dependencies already finished at enqueue time, any N, both error "
+    "modes, gated or not, any interleaving) a job that starts has not started before and every dependency it names has already ended without error; "
+    "C01_transitive extends it to transitive dependencies. Proved through the countdown invariant of the loop (remaining = number of unfinished dependency "
+    "occurrences, consumers lists consistent, each job in exactly one place). Tie: trace conformance; direct start/end sequence numbers inside job bodies.",
+    SCHED_NOTE + " The generated code's dependency lists are tied separately (C02/C10/C11).", "DESIGN.md §7 C01")
+CLAIMED["C07"] = (SCHED_TECH,
+    "C07_nil (nil only if every job started and ended successfully, none otherwise), C07_nil_ctx (context not cancelled when nil is returned), C07_error (a "
+    "non-nil return is exactly one error: the context's, or the very error a job ended with; never the sentinel), C07_downstream (nothing transitively "
+    "downstream of a failed job starts), for every run of the fail-fast model. Tie: trace conformance incl. Wait's return value; error identities on the real scheduler.",
+    SCHED_NOTE + " Results targets untouched on error is a property of generated code (C02).", "DESIGN.md §7 C07")
+CLAIMED["C08"] = (SCHED_TECH,
+    "C08_runs (after completion every job whose dependencies all succeeded was started or skipped for its own context), C08_downstream, C08_errors (the error "
+    "list is exactly one entry per received real error, each justified by what its job did, no sentinel, every failed job present), C08_once, C08_return, "
+    "also when the dependent is enqueued after its dependency failed. Tie: trace conformance; multierr.Errors identities as multisets on the real scheduler.",
+    SCHED_NOTE + " The forwarding of the ContinueOnError expression by generated code is checked on generated code (C10).", "DESIGN.md §7 C08")
 
 ALL = ["C%02d" % i for i in range(1, 21)]
 
